@@ -431,6 +431,27 @@ errno_t __wrap__wcscmp_s_chk(const wchar_t *dest, rsize_t dmax, const wchar_t *s
     if (BADBOS) { nskip++; return __real__wcscmp_s_chk(dest, dmax, src, smax, resultp, destbos, srcbos); }
     { PLANT(resultp, int, SENT_I) RUN(rc = __real__wcscmp_s_chk(dest, dmax, src, smax, resultp, destbos, srcbos)); { HARVEST_I(resultp) emit(&k, rc, -1, q_o1, h0); } } return rc; }
 
+/* natural-order comparisons: (dest, dmax, src, fold_case, int *resultp, destbos, srcbos); the narrow source has no bound of its own */
+extern errno_t __real__strnatcmp_s_chk(const char *dest, rsize_t dmax, const char *src, const int fold_case, int *resultp, const size_t destbos, const size_t srcbos);
+errno_t __wrap__strnatcmp_s_chk(const char *dest, rsize_t dmax, const char *src, const int fold_case, int *resultp, const size_t destbos, const size_t srcbos) {
+    errno_t rc; BEGIN(fold_case ? "strnatcasecmp_s" : "strnatcmp_s", 1); k.dest = dest; k.dmax = ASZ(dmax, STRMAX); k.src = src; k.dbos = ABOS(destbos, 1); k.sbos = ABOS(srcbos, 1);
+    k.src_is_str = 1; k.srclim = 390; k.flags = resultp ? 0 : 1;
+    if (BADBOS) { nskip++; return __real__strnatcmp_s_chk(dest, dmax, src, fold_case, resultp, destbos, srcbos); }
+    { PLANT(resultp, int, SENT_I) RUN(rc = __real__strnatcmp_s_chk(dest, dmax, src, fold_case, resultp, destbos, srcbos)); { HARVEST_I(resultp) emit(&k, rc, -1, q_o1, h0); } } return rc; }
+
+#define WRAP_WCMP2(SYM, EVNAME, EXTRA_DECL, EXTRA_ARG) \
+extern errno_t __real__##SYM##_chk(const wchar_t *dest, rsize_t dmax, const wchar_t *src, rsize_t smax, EXTRA_DECL int *resultp, const size_t destbos, const size_t srcbos); \
+errno_t __wrap__##SYM##_chk(const wchar_t *dest, rsize_t dmax, const wchar_t *src, rsize_t smax, EXTRA_DECL int *resultp, const size_t destbos, const size_t srcbos) { \
+    errno_t rc; BEGIN(EVNAME, 4); k.dest = dest; k.dmax = ASZ(dmax, WSTRMAX); k.src = src; k.slen = ASZ(smax, WSTRMAX); k.dbos = ABOS(destbos, 4); k.sbos = ABOS(srcbos, 4); \
+    k.src_is_str = 1; k.srclim = k.slen < 0 ? 8 : k.slen; k.flags = resultp ? 0 : 1; \
+    if (BADBOS) { nskip++; return __real__##SYM##_chk(dest, dmax, src, smax, EXTRA_ARG resultp, destbos, srcbos); } \
+    { PLANT(resultp, int, SENT_I) RUN(rc = __real__##SYM##_chk(dest, dmax, src, smax, EXTRA_ARG resultp, destbos, srcbos)); { HARVEST_I(resultp) emit(&k, rc, -1, q_o1, h0); } } return rc; }
+#define NOTHING
+#define FOLD_DECL const int fold_case,
+#define FOLD_ARG fold_case,
+WRAP_WCMP2(wcsicmp_s, "wcsicmp_s", NOTHING, NOTHING)
+WRAP_WCMP2(wcsnatcmp_s, (fold_case ? "wcsnaticmp_s" : "wcsnatcmp_s"), FOLD_DECL, FOLD_ARG)
+
 /* ---- multibyte / wide conversions (C15): events in the format of hmbs, written to $VERIF_WRAPLOG_MBS.  The standard
  *      function is run next to each call on a private buffer with a copy of the conversion state. ---- */
 #include <locale.h>
